@@ -288,6 +288,16 @@ def probe_templates(filters: list[str]) -> list[str]:
             else:
                 for left in ("s", "a", "n", "items"):
                     t.append("{{ " + left + " | " + f + args + " }}")
+    # the missing operand is a property of the lambda's own parameter, missing for some items only
+    # (items[2] has no k, items[1].k is nil): whatever the body does with it, a strict render either raises
+    # UndefinedError or gives the default policy's text
+    for f in ("map", "where", "reject", "find", "find_index", "has", "sort", "sort_natural", "sort_numeric", "uniq",
+              "compact", "sum"):
+        for body in ("i.k", "i.k == 1", "i.k != 1", "i.k == nil", "i.k != nil", "not i.k", "i.k and n", "i.k or n",
+                     "n and i.k", "i.nope != 'sale'", "i.nope == X", "not i.nope", "i.k < 2", "i.k contains 'a'",
+                     "'a' in i.k", "i.k.deep != 1", "not i[X]"):
+            t.append("{{ items | " + f + ": i => " + body + " | json }}")
+        t.append("{{ items | " + f + ": (i, j) => i.k != j | json }}")
     # nothing is missing at all: a strict render may not raise UndefinedError, whatever optional settings the
     # filter looks up on its own
     for f in filters:
